@@ -1,6 +1,7 @@
 from .. import cases
-from .common import run_tables
+from .common import run_carrier_sweep, run_tables
 
 
 def run(ck):
     run_tables(ck, 'C14.location', cases.location)
+    run_carrier_sweep(ck, 'C14.location', cases.location, time=False)
